@@ -4,6 +4,7 @@ import (
 	"fmt"
 	"strconv"
 	"strings"
+	"time"
 )
 
 // Enabled reports which syncer steps the real store can take now.
@@ -25,7 +26,7 @@ func (r *Runner) Enabled() []string {
 			e = append(e, "sw.begin 1") // retry after a failed state write
 		}
 	}
-	if r.swOwner == 0 && !r.g1queued && (r.g2retry != nil || r.St.G2Wanted()) && !(r.g1pc == "want") {
+	if r.swOwner == 0 && !r.g1queued && !r.g2queued && (r.g2retry != nil || r.St.G2Wanted()) && !(r.g1pc == "want") {
 		e = append(e, "sw.begin 2")
 	}
 	if r.swOwner != 0 {
@@ -34,6 +35,10 @@ func (r *Runner) Enabled() []string {
 		} else {
 			e = append(e, "sw.done")
 		}
+	}
+	if r.swOwner == 1 && !r.g2queued && r.g2retry == nil && r.St.G2Wanted() {
+		// ProcessBlockRelease wakes up while ProcessBlockPut is writing the state: it queues on storeLock
+		e = append(e, "g2.wake")
 	}
 	if !r.cancelled {
 		e = append(e, "shutdown")
@@ -370,6 +375,18 @@ func (r *Runner) Step(line string) {
 			return
 		}
 		r.swBegun(2, e)
+	case "g2.wake":
+		// the release wake-up reaches ProcessBlockRelease while ProcessBlockPut holds storeLock: it
+		// waits for the lock (code that takes GetPersistentState before the lock does so now); its
+		// state write begins when the lock is handed over (queuedRelease)
+		if r.swOwner != 1 || r.g2queued || r.g2retry != nil || !r.St.G2Wanted() {
+			return
+		}
+		from := r.St.SrcLogLen()
+		r.St.OpenRelGate()
+		r.g2queued = true
+		r.St.AwaitSrcFor(from, "getstate", 2*time.Millisecond)
+		r.record(line, "ok", "ok")
 	case "sw.step", "sw.fail":
 		if r.swOwner == 0 || r.swStage >= 6 {
 			return
@@ -391,6 +408,7 @@ func (r *Runner) Step(line string) {
 			}
 			r.swOwner, r.swPark = 0, nil
 			r.record(line, "ok", r.model(line))
+			r.queuedRelease()
 			if r.g1queued { // storeLock is free now: the queued ProcessBlockPut takes it
 				r.g1queued = false
 				if b, ok := r.expect(r.St.G1Ev, "sw-begin"); ok {
@@ -450,6 +468,7 @@ func (r *Runner) swDone(line string) {
 		return
 	}
 	r.record(line, "ok", r.model(line))
+	r.queuedRelease()
 	r.commitInProgress = false
 	r.CommitClean = !r.dirtySinceCommitStart
 	if !e.Ret {
